@@ -14,6 +14,7 @@ import os
 import tempfile
 from xml.etree.ElementTree import QName
 
+from xsdata.exceptions import ParserError
 from xsdata.formats.dataclass.context import XmlContext
 from xsdata.formats.dataclass.parsers import XmlParser
 from xsdata.formats.dataclass.parsers.config import ParserConfig
@@ -21,13 +22,13 @@ from xsdata.formats.dataclass.parsers.config import ParserConfig
 from .. import handler_bind as hb
 from .. import roundtrip_bind as rb
 from .. import rt_engine as rt
-from ..policy import handler_variant
+from ..policy import handler_variant, union_variant
 
 NONE = "__none__"
 
 
-def handler_cfg(emit=False, mids='{"element", "wrapper"}'):
-    out = (f'SPECIFICATION Spec\nCONSTANTS\n  WrapperPolicy = "{handler_variant()}"\n  MidKinds = {mids}\n  Pfxs = {{"p", ""}}\n')
+def handler_cfg(emit=False, mids='{"element", "wrapper", "union"}'):
+    out = (f'SPECIFICATION Spec\nCONSTANTS\n  WrapperPolicy = "{handler_variant()}"\n  UnionPolicy = "{union_variant()}"\n  MidKinds = {mids}\n  Pfxs = {{"p", ""}}\n')
     return out + ("CONSTRAINT Emit\n" if emit else "INVARIANT PumpsAgree\n") + "CHECK_DEADLOCK FALSE\n"
 
 
@@ -60,6 +61,11 @@ def check_scoping(ctx, case, want_agree=True):
             st, obj, nwarn = hb.parse(text, h, xctx)
             ctx.case(("scope", str(case["levels"]), prefix, decoys, h))
             if st != "ok":
+                if exp is None and case["levels"][1]["kind"] == "union" and isinstance(obj, ParserError):
+                    # an unresolvable QName inside a union: every candidate is tried strictly, none fits - a documented
+                    # refusal, the same for both handlers
+                    got[h] = "refused"
+                    continue
                 ctx.violation(f"{h} handler failed on a well-formed document: {type(obj).__name__}: {obj}", {"levels": case["levels"], "text": text})
                 continue
             val = hb.leaf_value(obj)
